@@ -27,6 +27,9 @@ CUSTOM_NUMERIC = {"custom1": _fixed_unitary(2, 0.0), "custom2": _fixed_unitary(4
                   # complex-SYMMETRIC but not Hermitian (transpose == itself, adjoint != itself): user-defined S-like and ISWAP-like gates
                   # user-defined matrices that are NOT diagonalisable (a definition accepts any matrix; modifiers are defined by matrix functions, which exist for these too)
                   "customnil": np.array([[0, 1], [0, 0]]), "customjordan": np.array([[1, 1], [0, 1]]), "customjordanc": np.array([[1j, 1], [0, 1j]]),
+                  "customcascade": np.array([[1, 0, 0, 0], [0, 1, 0, 0], [0.5, 0, 1, 0], [0, -0.25j, 0, 1]]),
+                  # custom definitions that BORROW THE NAME of a built-in gate family but are other matrices (descriptor "custom:<name>")
+                  "custom:RY": np.array([[1, 0], [0, 1j]]), "custom:RZ": np.array([[0, 1j], [1, 0]]), "custom:XX": np.diag([1, 1j, -1, np.exp(0.3j)]), "custom:U3": np.array([[0, 1], [1j, 0]]),
                   "customsym1": np.array([[1, 0], [0, 1j]]), "customsym2": np.array([[1, 0, 0, 0], [0, 0, 1j, 0], [0, 1j, 0, 0], [0, 0, 0, np.exp(0.3j)]])}
 
 
@@ -35,7 +38,7 @@ def custom_definition(name):
     from orquestra.quantum import circuits as C
     if name in CUSTOM_NUMERIC:
         M = sympy.Matrix([[complex(x) for x in row] for row in CUSTOM_NUMERIC[name].tolist()])
-        return C.CustomGateDefinition(name, M, ())
+        return C.CustomGateDefinition(name[7:] if name.startswith("custom:") else name, M, ())
     if name == "customroot1":   # exact entries in which the imaginary unit hides inside roots of -1 (no explicit I)
         return C.CustomGateDefinition(name, sympy.Matrix([[sympy.root(-1, 3), 0], [0, sympy.root(-1, 5) ** 2]]), ())
     a, b = sympy.Symbol("alpha"), sympy.Symbol("beta")
@@ -115,7 +118,7 @@ def arity(d):
     n = d["g"]
     if n == "named":
         return 1
-    if n in ("custom2", "customsym2", "custom2p", "CNOT", "CZ", "SWAP", "ISWAP", "CPHASE", "XX", "YY", "ZZ", "XY", "MS"):
+    if n in ("custom2", "customsym2", "custom2p", "customcascade", "custom:XX", "CNOT", "CZ", "SWAP", "ISWAP", "CPHASE", "XX", "YY", "ZZ", "XY", "MS"):
         return 2
     if n == "custom3":
         return 3
